@@ -135,6 +135,9 @@ ExpAttrs(e, c) == CASE Undecl(e, c) = "pos" -> [j \in DOMAIN Attrs[c] |-> <<"_" 
                     [] Undecl(e, c) = "ser" -> [j \in DOMAIN Attrs[c] |-> <<"_" \o ToString(j - 1),
                                                     IF Attrs[c][j].t = "BOOLEAN" THEN "INTEGER" ELSE Attrs[c][j].t>>]
                     [] Undecl(e, c) = "none" -> <<<<"?", "?">>>>
+                    \* inferred from a named insert: the column names as the insert spells them (e.names, given by the schedule)
+                    [] Undecl(e, c) = "named" /\ "names" \in DOMAIN e /\ c \in DOMAIN e.names ->
+                          [j \in DOMAIN Attrs[c] |-> <<e.names[c][j], Attrs[c][j].t>>]
                     [] OTHER -> DeclAttrs(c)
 SchemaOK(e) ==
     e.schema.extra = <<"-">> \/
